@@ -50,7 +50,10 @@ mutual
 def hasTyB (st : StructTable) (n : Nat) (sT cT : String → Ty) : Ty → Exp → Bool
   | t, .lit j => litOkB st t j
   | t, .arr xs => t.arrDim != 0 && hasTyListB st n sT cT { t with arrDim := t.arrDim - 1 } xs
-  | t, .map kvs => t.arrDim == 0 && t.mapDim != 0 && hasTyFieldsB st n sT cT ⟨t.base, 0, t.mapDim - 1⟩ kvs
+  | t, .map kvs =>
+    (t.arrDim == 0 && t.mapDim != 0 && hasTyFieldsB st n sT cT ⟨t.base, 0, t.mapDim - 1⟩ kvs) ||
+    -- a reference-free literal where an untyped `map` (or another opaque type) is expected
+    (t.arrDim == 0 && t.mapDim == 0 && (st.lookup t.base).isNone && Exp.isJsonFields kvs)
   | t, .struct kvs => t.arrDim == 0 && t.mapDim == 0 &&
       match st.lookup t.base with
       | some ps => hasTyMembersB st n sT cT ps kvs && ps.all fun p => (kvs.lookup p.name).isSome
@@ -174,7 +177,7 @@ def pipelineOkMB (st : StructTable) (n : Nat) (P : Program) (pins outs : List Pa
     | some e => hasTyB st n (selfTyOfB pins) (callTyOfB (calls.map fun c => (c.id, callTyMB c))) p.ty e
     | none => true
 
-/-- decidable hypotheses of `resolver_refines_den_staticmap_checked` -/
+/-- decidable hypotheses of `resolver_refines_den_staticmap_checked_partial` -/
 def wellTypedMB (P : Program) : Bool :=
   structsOkB P.table &&
   (P.callables.all fun e => P.table.lookup e.1 == some e.2.outs) &&
@@ -231,7 +234,7 @@ def pipelineOkGB (st : StructTable) (n : Nat) (P : Program) (pins outs : List Pa
       | none => true
   | none => false
 
-/-- decidable hypotheses of `resolver_refines_den_mapstatic_checked` (with `staticProgramOk`, `acyclicB`) -/
+/-- decidable hypotheses of `resolver_refines_den_mapstatic_checked_partial` (with `staticProgramOk`, `acyclicB`) -/
 def wellTypedGB (P : Program) : Bool :=
   structsOkB P.table &&
   (P.callables.all fun e => P.table.lookup e.1 == some e.2.outs) &&
@@ -275,7 +278,7 @@ def pipelineOkTB (st : StructTable) (n : Nat) (P : Program) (pins outs : List Pa
     | some e => hasTyB st n (selfTyOfB pins) (callTyOfB (calls.map fun c => (c.id, callTyMB c))) p.ty e
     | none => true
 
-/-- decidable typing hypothesis of `resolver_refines_den_mappedpipes_checked` -/
+/-- decidable typing hypothesis of `resolver_refines_den_mappedpipes_checked_partial` -/
 def wellTypedTB (P : Program) : Bool :=
   structsOkB P.table &&
   (P.callables.all fun e => P.table.lookup e.1 == some e.2.outs) &&
@@ -327,7 +330,7 @@ def pipelineOkEB (st : StructTable) (n : Nat) (P : Program) (pins outs : List Pa
       hasTyB st n (selfTyOfB pins) (callTyOfB (calls.map fun c => (c.id, callTyMB c))) p.ty e
     | none => true
 
-/-- decidable typing hypothesis of `resolver_refines_den_disabled_checked` -/
+/-- decidable typing hypothesis of `resolver_refines_den_disabled_checked_partial` -/
 def wellTypedEB (P : Program) : Bool :=
   structsOkB P.table &&
   (P.callables.all fun e => P.table.lookup e.1 == some e.2.outs) &&
@@ -335,6 +338,93 @@ def wellTypedEB (P : Program) : Bool :=
     match e.2 with
     | .stage _ _ => true
     | .pipeline pins outs calls ret => pipelineOkEB P.table P.table.length P pins outs calls ret) &&
+  callOkB P.table P.table.length P.insOf (selfTyOfB []) (callTyOfB []) P.top &&
+  (P.top.binds.all fun b => !b.split) &&
+  P.top.binds.all fun b => Exp.clean b.exp
+
+end Martian.ResolverStatic
+
+namespace Martian.ResolverStatic
+open Martian.Dataflow
+
+/-! ## … map calls in typed-map mode, map calls of run-time size (`wellTypedRB`) -/
+
+/-- `splitMode` / `callMode` of den on the TYPES of an environment -/
+def splitModeS (st : StructTable) (sT cT : String → Ty) : Exp → Mode
+  | .arr _ => .arr
+  | .map _ => .map
+  | .struct _ => .map
+  | .lit _ => .nul
+  | .self p path =>
+    if (pathTy st (sT p) path).arrDim > 0 then .arr else if (pathTy st (sT p) path).mapDim > 0 then .map else .nul
+  | .ref c path =>
+    if (pathTy st (cT c) path).arrDim > 0 then .arr else if (pathTy st (cT c) path).mapDim > 0 then .map else .nul
+
+def callModeS (st : StructTable) (sT cT : String → Ty) (c : Call) : Mode :=
+  if c.mapped then
+    match firstSplit c with
+    | some e => splitModeS st sT cT e
+    | none => .nul
+  else .single
+
+/-- the type of `CALL` as later bindings see it -/
+def callTyS (st : StructTable) (sT cT : String → Ty) (c : Call) : Ty := liftTy c.callee (callModeS st sT cT c)
+
+/-- the types the calls of a body add to the environment, in order -/
+def callTypesS (st : StructTable) (sT : String → Ty) : List (String × Ty) → List Call → List (String × Ty)
+  | _, [] => []
+  | L, c :: cs =>
+    (c.id, callTyS st sT (callTyOfB L) c) :: callTypesS st sT (L ++ [(c.id, callTyS st sT (callTyOfB L) c)]) cs
+
+/-- no projection of a value of type `t` along existing fields passes through a typed map -/
+def noMapBelowB (st : StructTable) : Nat → Ty → Bool
+  | 0, _ => false
+  | n+1, t =>
+    t.mapDim == 0 &&
+    match st.lookup t.base with
+    | none => true
+    | some ps => ps.all fun p => noMapBelowB st n p.ty
+
+/-- a map call in TYPED-MAP mode without `disabled` -/
+def mappedOkKB (st : StructTable) (n : Nat) (P : Program) (sT cT : String → Ty) (c : Call) : Bool :=
+  c.mapped && c.disabled.isNone &&
+  (c.binds.any fun b => b.split) &&
+  decide ((c.binds.map (·.param)).Nodup) &&
+  (c.binds.all fun b => !b.split || (P.insOf c.callee).any fun p => p.name == b.param) &&
+  (P.insOf c.callee).all fun p =>
+    match c.binds.find? (fun b => b.param == p.name) with
+    | some b =>
+      hasTyB st n sT cT (if b.split then liftSplitTy true p.ty else p.ty) b.exp &&
+      (!b.split || noMapBelowB st (n + 1) p.ty)
+    | none => true
+
+def callOkRB (st : StructTable) (n : Nat) (P : Program) (sT cT : String → Ty) (c : Call) : Bool :=
+  callCleanB c && (callOkTB st n P sT cT c || disabledOkEB st n P sT cT c || mappedOkKB st n P sT cT c)
+
+def callsOkRB (st : StructTable) (n : Nat) (P : Program) (sT : String → Ty) :
+    List (String × Ty) → List Call → Bool
+  | _, [] => true
+  | L, c :: cs =>
+    callOkRB st n P sT (callTyOfB L) c &&
+    callsOkRB st n P sT (L ++ [(c.id, callTyS st sT (callTyOfB L) c)]) cs
+
+def pipelineOkRB (st : StructTable) (n : Nat) (P : Program) (pins outs : List Param)
+    (calls : List Call) (ret : List (String × Exp)) : Bool :=
+  callsOkRB st n P (selfTyOfB pins) [] calls &&
+  outs.all fun p =>
+    match ret.lookup p.name with
+    | some e => Exp.clean e &&
+      hasTyB st n (selfTyOfB pins) (callTyOfB (callTypesS st (selfTyOfB pins) [] calls)) p.ty e
+    | none => true
+
+/-- decidable typing hypothesis of `resolver_refines_den_runtime_checked_partial` -/
+def wellTypedRB (P : Program) : Bool :=
+  structsOkB P.table &&
+  (P.callables.all fun e => P.table.lookup e.1 == some e.2.outs) &&
+  (P.callables.all fun e =>
+    match e.2 with
+    | .stage _ _ => true
+    | .pipeline pins outs calls ret => pipelineOkRB P.table P.table.length P pins outs calls ret) &&
   callOkB P.table P.table.length P.insOf (selfTyOfB []) (callTyOfB []) P.top &&
   (P.top.binds.all fun b => !b.split) &&
   P.top.binds.all fun b => Exp.clean b.exp
